@@ -124,8 +124,9 @@ Rules(c, o) ==
 
 Check(c, o) == {r[1] : r \in {x \in Rules(c, o) : ~x[2]}}
 
-\* expectation (never a verdict): a fitting request of an allowed URI is taken to the login page
-Expected(c, o) == (Allowed(c) /\ c.defect = "none") => (o.F = "ok" /\ o.P.class = "login" /\ o.L.class = "login")
+Outcomes(c) == {Decide(c)}
+\* conformance with the design's decision procedure (a difference is a DIVERGENCE note, never a verdict)
+Conforms(c, o) == LET d == Decide(c) IN o.F = d.F /\ o.P.class = d.P.class /\ o.L.class = d.L.class
 
 -----------------------------------------------------------------------------
 Fields == {"scheme", "ui", "host", "port", "path", "query", "frag"}
